@@ -2,7 +2,7 @@
 # tools/mutant.sh <ID> <file under ghedesigner/> <python-regex-old> <new> [--only glob] : one-off source mutant in a scratch copy
 ID=$1; FILE=$2; OLD=$3; NEW=$4; shift 4
 D=/root/scratch/mutant.$$
-mkdir -p $D && cp -r /repo/ghedesigner $D/ && rm -rf $D/ghedesigner/tests/test_outputs $D/ghedesigner/tests/test_logs
+mkdir -p $D && cp -r /repo/ghedesigner /repo/demos $D/ && rm -rf $D/ghedesigner/tests/test_outputs $D/ghedesigner/tests/test_logs
 python3 - "$D/ghedesigner/$FILE" "$OLD" "$NEW" <<'PY'
 import sys
 p, old, new = sys.argv[1:4]
